@@ -1274,12 +1274,167 @@ def check_cases(res: Result, cases, scope: bool, rng) -> None:
             )
 
 
-def load_corpus():
+def _lin_leaf(name, ins, outs, coefs):
+    """Scalar linear leaf: outs[o] = sum coefs[(o, i)] * i."""
+    return {"t": "L", "spec": {
+        "name": name, "ins": [[i, 1] for i in ins], "outs": [[o, 1] for o in outs],
+        "poly": {o: [{"c": "0", "lin": [[i, 0, str(coefs[(o, i)])] for i in ins], "quad": []}] for o in outs},
+        "kind": "dense", "jac_all": True, "cache": "SimpleCache"}}
+
+
+def enumerate_small():
+    """Exhaustive small scope: every in-scope chain of 3 scalar linear disciplines over the inputs {x, w}
+    (each reads 1-2 available variables and writes a fresh variable or re-writes an unread one), and every
+    parallel/additive chain of 2 such disciplines writing among {s, t}; distinct prime coefficients."""
+    import itertools
+
+    primes = [2, 3, 5, 7, 11, 13]
+    cases = []
+
+    def subsets(pool):
+        return [list(c) for r in (1, 2) for c in itertools.combinations(pool, r)]
+
+    def finish(proc, sizes):
+        ins, outs = node_ins(proc), node_outs(proc)
+        point = {n: ["1"] for n in ins}
+        reqs = [{"in": [ins[0]], "out": [outs[-1]], "all": False, "point": point, "call": "point"},
+                {"in": list(ins), "out": list(outs), "all": False, "point": point, "call": "point"}]
+        return {"sizes": sizes, "proc": proc, "reqs": reqs}
+
+    for in0 in subsets(["x", "w"]):
+        for in1 in subsets(["x", "w", "o0"]):
+            for out1 in ["o1"] + (["o0"] if "o0" not in in1 else []):
+                avail2 = ["x", "w"] + sorted({"o0", out1})
+                for in2 in subsets(avail2):
+                    read = set(in0) | set(in1) | set(in2)
+                    for out2 in ["o2"] + [v for v in sorted({"o0", out1}) if v not in read]:
+                        leaves_ = []
+                        k = 0
+                        for name, ins, out in (("D0", in0, "o0"), ("D1", in1, out1), ("D2", in2, out2)):
+                            coefs = {}
+                            for i in ins:
+                                coefs[(out, i)] = primes[k % len(primes)]
+                                k += 1
+                            leaves_.append(_lin_leaf(name, ins, [out], coefs))
+                        proc = {"t": "C", "kids": leaves_}
+                        if not in_scope(proc):
+                            continue
+                        names = set(node_ins(proc)) | set(node_outs(proc))
+                        cases.append(finish(proc, {n: 1 for n in names}))
+    for kind in ("P", "A"):
+        for in0 in subsets(["x", "w"]):
+            for in1 in subsets(["x", "w"]):
+                for outs0 in (["s"], ["s", "t"], ["t"]):
+                    for outs1 in (["s"], ["t"], ["s", "t"]):
+                        coefs0 = {(o, i): primes[(a + 2 * b) % 6] for a, o in enumerate(outs0) for b, i in enumerate(in0)}
+                        coefs1 = {(o, i): primes[(3 + a + 2 * b) % 6] for a, o in enumerate(outs1) for b, i in enumerate(in1)}
+                        proc = {"t": kind, "kids": [_lin_leaf("D0", in0, outs0, coefs0), _lin_leaf("D1", in1, outs1, coefs1)]}
+                        if kind == "A":
+                            proc["sums"] = ["s"] if "s" in outs0 + outs1 else ["t"]
+                        names = set(node_ins(proc)) | set(node_outs(proc))
+                        cases.append(finish(proc, {n: 1 for n in names}))
+    return cases
+
+
+# =========================================================================== MDAChain, coupled-adjoint path
+# MDAChain(chain_linearize=False) — the default as soon as the disciplines share a variable — does not
+# use MDOChain's accumulation but BaseMDA._compute_jacobian (JacobianAssembly.total_derivatives, a
+# linear solve).  Rounded stream, oracle only: every returned entry must be within 2^-30 (relative to
+# max(1, |block|_max)) of the exact total derivative.
+
+MDA_BOUND = Fraction(1, 2**30)
+
+
+def mda_adjoint_run(case, variant):
+    from gemseo.mda.mda_chain import MDAChain
+
+    made: dict[int, Any] = {}
+    for k in case["proc"]["kids"]:
+        build(k, made)
+    proc = case["proc"]
+    ins, outs = node_ins(proc), node_outs(proc)
+    bad: list[tuple[str, str]] = []
+    with contextlib.redirect_stderr(io.StringIO()):
+        obj = MDAChain([made[id(k)] for k in proc["kids"]], **variant)
+    cum_in: list[str] = []
+    cum_out: list[str] = []
+    for k, req in enumerate(case["reqs"]):
+        cum_in += [n for n in req["in"] if n not in cum_in]
+        cum_out += [n for n in req["out"] if n not in cum_out]
+        xs, os_ = (ins, outs) if req["all"] else (cum_in, cum_out)
+        if not xs or not os_:
+            continue
+        tr = truth(case, req["point"])
+        indep = any(all(e == 0 for x in xs for r in tr[(o, x)] for e in r) for o in os_) or any(
+            all(e == 0 for o in os_ for r in tr[(o, x)] for e in r) for x in xs
+        )
+        point = {n: np.array([float(Fraction(v)) for v in vals]) for n, vals in req["point"].items()}
+        try:
+            with contextlib.redirect_stderr(io.StringIO()):
+                if req["in"]:
+                    obj.add_differentiated_inputs(list(req["in"]))
+                if req["out"]:
+                    obj.add_differentiated_outputs(list(req["out"]))
+                jac = obj.linearize(point, compute_all_jacobians=bool(req["all"]))
+        except Exception as e:  # noqa: BLE001
+            tag = common.exc_class(e)[2:]
+            key = "raises/mdachain-adjoint|independent-pair-requested" if indep else f"raises-{tag}/mdachain-adjoint"
+            bad.append((key, f"request {k}: MDAChain(chain_linearize=False).linearize raised {common.exc_class(e)}: {common.short_tb(e, 3)[-300:]}"))
+            break
+        for o in os_:
+            for x in xs:
+                want = tr[(o, x)]
+                try:
+                    b = dense(jac[o][x])
+                except (KeyError, TypeError):
+                    bad.append(("missing-block/mdachain-adjoint", f"request {k}: no block d{o}/d{x}"))
+                    continue
+                if b.shape != (case["sizes"][o], case["sizes"][x]) or not np.all(np.isfinite(b)):
+                    bad.append(("shape/mdachain-adjoint", f"request {k}: d{o}/d{x} has shape {b.shape}"))
+                    continue
+                scale = max([Fraction(1)] + [abs(e) for r in want for e in r])
+                ok = all(abs(F(b[i][j]) - want[i][j]) <= MDA_BOUND * scale for i in range(len(want)) for j in range(len(want[i])))
+                if not ok:
+                    bad.append(("wrong-block/mdachain-adjoint", f"request {k}: d{o}/d{x} returned {b.tolist()}, exact {_mat(want)}"))
+    seen = set()
+    return [b for b in bad if not (b[0] in seen or seen.add(b[0]))]
+
+
+def check_mda_adjoint(res: Result, rng, n: int) -> None:
+    variants = [{}, {"inner_mda_name": "MDAGaussSeidel"}, {"mdachain_parallelize_tasks": True}]
+    corpus = load_corpus("mdachain-adjoint")
+    for i in range(len(corpus) + n):
+        if i < len(corpus):
+            case, variant = corpus[i]
+        else:
+            case = gen_case(rng, True, top="M")
+            for r in case["reqs"]:
+                r["call"] = "point"
+                r.pop("how", None)
+            variant = variants[i % len(variants)]
+        res.evaluations += 1
+        res.count("mdachain-adjoint(rounded stream, oracle only)")
+        res.nontrivial("mda:" + case_line(case)[:2000])
+        for key, msg in mda_adjoint_run(case, variant):
+            res.count("oracle-fail:" + key)
+            if any(v.key == key for v in res.violations):
+                continue
+
+            def fails(c, key=key, variant=variant):
+                return any(k == key for k, _ in mda_adjoint_run(c, variant))
+
+            small = shrink(case, fails, budget=80)
+            res.violate("oracle", key, msg, {"case": small, "mda_variant": variant, "stream": "mdachain-adjoint"})
+
+
+def load_corpus(stream: str | None = None):
     d = common.CORPUS_DIR / PID
     out = []
     if d.is_dir():
         for p in sorted(d.glob("*.json")):
-            out.append(json.loads(p.read_text())["case"])
+            e = json.loads(p.read_text())
+            if e.get("stream") == stream:
+                out.append(e["case"] if stream is None else (e["case"], e.get("mda_variant", {})))
     return out
 
 
@@ -1290,14 +1445,16 @@ def run(ctx) -> Result:
         "polynomial leaf disciplines with dense/sparse/operator Jacobians, variables of size 1-3, diamonds, fan-in/out, "
         "dead writes and inputs that are also outputs) x histories of 1-4 add_differentiated_*/linearize calls "
         "(subsets, compute_all_jacobians, changing input points); a case is non-trivial when the process has >= 2 "
-        "leaf disciplines; distinct by protocol line"
+        "leaf disciplines; distinct by protocol line; + exhaustive small scope: every in-scope chain of 3 scalar "
+        "linear disciplines over 2 inputs (fresh or re-written outputs) and every parallel/additive pair"
     )
     res.assumptions = [
         "in-scope = name-based dependency graph acyclic and chains listed in a valid (topological) order; "
         "other layouts are probed against the model only",
         "exact stream: every float intermediate is exactly representable (checked per case: term-by-term "
         "evaluation and the bound prod(1+sum|entries|) * 2^K < 2^52 on any accumulation order)",
-        "MDAChain is exercised with chain_linearize=True and without strong couplings (coupled derivatives: C07)",
+        "MDAChain without strong couplings: chain_linearize=True on the exact stream (model + oracle); the default "
+        "coupled-adjoint path (JacobianAssembly, C07) on a rounded stream, oracle only, bound 2^-30 relative",
     ]
     rng = ctx.rng
     n = 6000 if ctx.thorough else 420
@@ -1312,6 +1469,12 @@ def run(ctx) -> Result:
         batch = [gen_case(rng, True) for _ in range(min(60, n - done))]
         check_cases(res, batch, True, rng)
         done += len(batch)
+    if True:  # exhaustive small scope (585 cases, ~15 s): both tiers
+        small = enumerate_small()
+        for i in range(0, len(small), 100):
+            check_cases(res, small[i : i + 100], True, rng)
+        res.count("exhaustive-small-scope", len(small))
+    check_mda_adjoint(res, rng, 400 if ctx.thorough else 45)
     probe = []
     for _ in range(max(10, n // 12)):
         try:
@@ -1331,6 +1494,12 @@ def replay(path: str) -> int:
         print(json.dumps(rp, indent=1)[:3000])
         return 1
     case = rp["case"]
+    if rp.get("stream") == "mdachain-adjoint":
+        bad = mda_adjoint_run(case, rp.get("mda_variant", {}))
+        print("protocol:", case_line(case))
+        for key, msg in bad:
+            print("ORACLE FAILS:", key, msg)
+        return 1 if bad else 0
     run_ = impl_run(case)
     line = case_line(case, run_["structure"])
     print("protocol:", line)
